@@ -43,7 +43,8 @@ ASSUMPTIONS = [
 REQUIRED = ["ops_executed", "rechecks", "handle_reads", "node_writes", "detach_node", "detach_path",
             "detach_branch", "detach_compartment", "tree_copies", "independence_probes",
             "slices_checked", "index_errors_checked", "branch_segments_checked",
-            "tree_segments_checked", "adjacency_checked", "pid_writes"]
+            "tree_segments_checked", "adjacency_checked", "pid_writes",
+            "worlds_with_other_column_dtypes"]
 FLOOR = {"quick": 300, "thorough": 6000}
 SHARDS = {"quick": 8, "thorough": 16}
 
@@ -178,6 +179,13 @@ def _run_history(ctx, case):
     rng = np.random.default_rng(case["hseed"])
     W = World(ctx, spec)
     t, n = W.tree, W.n
+    if case.get("alt_dtypes"):
+        # columns in other widths than a freshly built tree has (what float64 transforms or a
+        # user replacing a column wholesale leave behind): handles are windows onto these too
+        for k_, dt in (("x", np.float64), ("y", np.float64), ("r", np.float64), ("type", np.int64)):
+            t.ndata[k_] = t.ndata[k_].astype(dt)
+            W.cols[k_] = W.cols[k_].astype(dt)
+        ctx.count("worlds_with_other_column_dtypes")
     wrote = copied = 0
     paths = [tuple(int(i) for i in p) for p in topo.paths(W.cols["pid"])]
     brs = [tuple(int(i) for i in b) for b in topo.branches(W.cols["pid"])]
@@ -465,7 +473,8 @@ def run(ctx):
         rc = G.random_recipe(rng, max_n=G.size_ladder(ctx, k, 8, 30, 120),
                              extras=int(rng.integers(0, 3)))
         case = {"tree": rc, "hseed": int(rng.integers(0, 2**31 - 1)),
-                "length": int(rng.integers(20, 60 if ctx.quick else 200))}
+                "length": int(rng.integers(20, 60 if ctx.quick else 200)),
+                "alt_dtypes": bool(k % 4 == 3)}
         wrote, copied = execute(ctx, case) or (0, 0)
         ctx.case(case, nontrivial=wrote >= 1 and copied >= 1,
                  klass=f"{rc['shape']}/{rc['numbering']}")
